@@ -135,6 +135,20 @@ func vC09Run(t *testing.T, c vC09Case) (string, []interface{}, map[string]int) {
 		for _, hh := range held {
 			setExpire(hh)
 		}
+		// windows of >= 6 samples: keep the accrual detector at phi = 0 (equal one-hour gaps, newest sample
+		// received just now), which is the verdict the model is given by default
+		for n := 0; n < vC09NNames; n++ {
+			for p := 0; p < vC09NPeers; p++ {
+				ms := mon.metrics.PeerMetricAll("m"+strconv.Itoa(n), peers[p])
+				if len(ms) < 6 {
+					continue
+				}
+				newest := time.Now()
+				for i, m := range ms {
+					m.ReceivedAt = newest.Add(-time.Duration(i) * time.Hour).UnixNano()
+				}
+			}
+		}
 	}
 	drain := func() (int, string) {
 		var xs []string
